@@ -3,6 +3,16 @@ import zlib
 from checklib import cbool, clist, cpair, cN
 
 ID = "C19"
+# source constants of this property: Gen/Params.v is regenerated from the working tree, Proofs/ParamsTie.vo
+# (lemma per constant: it is the value the models use) is built with the property (lib/paramsgen.py)
+import paramsgen
+EXTRA_TARGETS = [paramsgen.TARGET]
+
+
+def pre_build(ctx):
+    paramsgen.regenerate(ctx)
+
+
 HARNESS = "c19"
 # -n is the number of query cases; window and concurrency cases come on top (fixed per tier)
 N_CASES = {"quick": 300, "thorough": 4000}
